@@ -81,6 +81,41 @@ func c10(c *core.Ctx, r *core.Report) {
 		"(R4) the interpolation position is a float64 quotient and no integer multiplication/division of durations feeds the rate; (R5) a stage is left only when the elapsed time reaches its duration (slack of at most 1 ns in the advance test)."
 	r.NotDecided = []string{"within-1 accuracy of the interpolated value", "values never outside the stage's two targets", "monotonicity within a stage", "exact end instant of the ramp"}
 	spkg := "internal/trigger/staged"
+	// roles in the staged calculator: the cursor is its int field, the stage list its slice field, the stage start its
+	// time.Time field; the receiver and the time parameter may have any name
+	calcT, _ := c.Named(spkg, "RateCalculator").Underlying().(*types.Struct)
+	var curFld, stagesFld *types.Var
+	for i := 0; calcT != nil && i < calcT.NumFields(); i++ {
+		f := calcT.Field(i)
+		if isIntType(f.Type()) {
+			curFld = f
+		}
+		if _, ok := f.Type().Underlying().(*types.Slice); ok {
+			stagesFld = f
+		}
+	}
+	isLoadOf := func(v ssa.Value, fld *types.Var) bool {
+		fa, ok := an.Strip(v).(*ssa.FieldAddr)
+		return ok && an.SameField(an.FieldOfAddr(fa), fld)
+	}
+	// lenStagesPlus(v) = k when v is len(stages)+k
+	lenStagesPlus := func(v ssa.Value) (int64, bool) {
+		v = an.Strip(v)
+		off := int64(0)
+		if bo, ok := v.(*ssa.BinOp); ok && (bo.Op == token.SUB || bo.Op == token.ADD) {
+			if k, isK := constInt(bo.Y); isK {
+				if bo.Op == token.SUB {
+					k = -k
+				}
+				off, v = k, an.Strip(bo.X)
+			}
+		}
+		call, ok := v.(*ssa.Call)
+		if !ok || !an.IsBuiltinCall(call, "len") || !isLoadOf(call.Call.Args[0], stagesFld) {
+			return 0, false
+		}
+		return off, true
+	}
 
 	rule(r, "C10.R1", "stage chaining: when a stage is appended its StartTarget is the previous stored stage's EndTarget, or the constant 0 when no stage is stored yet; every parsed stage is chained exactly once, in order", func() {
 		calc, _ := c.Named(spkg, "RateCalculator").Underlying().(*types.Struct)
@@ -349,10 +384,31 @@ func c10(c *core.Ctx, r *core.Report) {
 							uncond = false
 						}
 					}
-					if strings.HasPrefix(d, "$s.stages[") && strings.HasSuffix(d, ".Duration") && uncond {
+					// the term is stages[i].Duration and i sweeps the whole list: 0 … len-1 or len-1 … 0
+					covers := false
+					if fa, isFA := an.Strip(other).(*ssa.FieldAddr); isFA && an.FieldOfAddr(fa).Name() == "Duration" {
+						base := an.Strip(fa.X)
+						if al, isAl := base.(*ssa.Alloc); isAl {
+							// the range statement's own copy of the element
+							if sts := an.StoresTo(al); len(sts) == 1 {
+								base = an.Strip(sts[0].Val)
+							}
+						}
+						if ia, isIA := base.(*ssa.IndexAddr); isIA && isLoadOf(ia.X, stagesFld) {
+							sw, okSw := indexSweep(md, ia.Index, bo, func(v ssa.Value) bool { return isLoadOf(v, stagesFld) })
+							if okSw && sw.guardOK && sw.entryOK {
+								up := sw.first.eq(aff{0, 0, 0, true}) && sw.perIter == 1 && sw.guardNorm.eq(aff{1, 0, -1, true}.sub(sw.idx))
+								down := sw.first.eq(aff{1, 0, -1, true}) && sw.perIter == -1 && sw.guardNorm.eq(sw.idx)
+								covers = up || down
+							} else if isCounter(an.Strip(ia.Index)) {
+								_, covers = upperGuard(bo.Block(), an.Strip(ia.Index), ia.X, func(a, b ssa.Value) bool { return an.Strip(a) == an.Strip(b) })
+							}
+						}
+					}
+					if covers && uncond {
 						okAcc = true
 					} else {
-						r.Violation("MaxDuration#sum", an.Pos(c, bo), "the total adds %s (conditional=%v) instead of every stage's Duration", d, !uncond)
+						r.Violation("MaxDuration#sum", an.Pos(c, bo), "the total adds %s (conditional=%v, sweeps the whole list=%v) instead of every stage's Duration", d, !uncond, covers)
 					}
 				}
 			}
@@ -405,41 +461,6 @@ func c10(c *core.Ctx, r *core.Report) {
 		if core.RelPkg(fn) == "internal/trigger/ramp" {
 			rampFn = fn
 		}
-	}
-	// roles in the staged calculator: the cursor is its int field, the stage list its slice field, the stage start its
-	// time.Time field; the receiver and the time parameter may have any name
-	calcT, _ := c.Named(spkg, "RateCalculator").Underlying().(*types.Struct)
-	var curFld, stagesFld *types.Var
-	for i := 0; calcT != nil && i < calcT.NumFields(); i++ {
-		f := calcT.Field(i)
-		if isIntType(f.Type()) {
-			curFld = f
-		}
-		if _, ok := f.Type().Underlying().(*types.Slice); ok {
-			stagesFld = f
-		}
-	}
-	isLoadOf := func(v ssa.Value, fld *types.Var) bool {
-		fa, ok := an.Strip(v).(*ssa.FieldAddr)
-		return ok && an.SameField(an.FieldOfAddr(fa), fld)
-	}
-	// lenStagesPlus(v) = k when v is len(stages)+k
-	lenStagesPlus := func(v ssa.Value) (int64, bool) {
-		v = an.Strip(v)
-		off := int64(0)
-		if bo, ok := v.(*ssa.BinOp); ok && (bo.Op == token.SUB || bo.Op == token.ADD) {
-			if k, isK := constInt(bo.Y); isK {
-				if bo.Op == token.SUB {
-					k = -k
-				}
-				off, v = k, an.Strip(bo.X)
-			}
-		}
-		call, ok := v.(*ssa.Call)
-		if !ok || !an.IsBuiltinCall(call, "len") || !isLoadOf(call.Call.Args[0], stagesFld) {
-			return 0, false
-		}
-		return off, true
 	}
 	// pastEnd: the guard states cursor >= len(stages)
 	pastEnd := func(g an.Guard) bool {
